@@ -3,7 +3,7 @@
    is run on the step history the real cursor.Provider executed; after every step
    the result of the step and a snapshot (cached ids, per-cursor release count, net acquisitions
    per partition) are compared with what the implementation showed. *)
-From LR Require Export lib.Base model.CList model.Provider.
+From LR Require Export lib.Base model.CList model.Provider model.Querier.
 
 Definition snap := (list N * list nat * list Z)%type.
 Definition snapshot (np : nat) (s : prov) : snap := (cached_ids s, rel_counts s, acq_counts s np).
@@ -46,9 +46,77 @@ Fixpoint all2 {A B : Type} (f : A -> B -> bool) (a : list A) (b : list B) : bool
   | _, _ => false
   end.
 
+(* ---- end-to-end cases: request sequences through the real ServerQuerier / backend.Querier. The harness sees the calls
+   the queriers make on the provider (GetOrCreate, Release, in the order the provider served them); the model runs the
+   blocks of model/Querier.v. Compared: what GetOrCreate / Release answered, and after every call the cached ids and
+   the net acquisitions per partition. ---- *)
+Definition mkq (w l : Z) (i q : N) (qr : qres) (p : pos) (f : N) : qreq :=
+  {| q_wait := w; q_limit := l; q_id := i; q_query := q; q_qr := qr; q_pos := p; q_fresh := f |}.
+
+Definition esnap := (list N * list Z)%type.
+Definition esnap_ok (np : nat) (s : prov) (o : option esnap) : bool :=
+  match o with
+  | None => true
+  | Some (ids, acq) => list_eqb N.eqb (cached_ids s) ids && list_eqb Z.eqb (acq_counts s np) acq
+  end.
+
+Definition qout_eqb (a b : qout) : bool :=
+  match a, b with
+  | QoRejected, QoRejected | QoEmpty, QoEmpty | QoRefused, QoRefused | QoErr, QoErr => true
+  | QoOk i, QoOk j => N.eqb i j
+  | _, _ => false
+  end.
+Definition oqout_eqb (a b : option qout) : bool :=
+  match a, b with
+  | None, None => true
+  | Some x, Some y => qout_eqb x y
+  | _, _ => false
+  end.
+
+Inductive qitem :=
+| QStart (r : nat) (early0 : bool) (rq : qreq) (over : option qout) (sn : option esnap)
+    (* the request up to the return of GetOrCreate; over = Some: it was answered without getting a cursor *)
+| QFinish (r : nat) (k : N) (out : qout) (sn : option esnap)      (* k records read, Release *)
+| QOp (o : op) (sn : option esnap).                               (* OTick / OSweepTime / OSweepSize / OShutdown *)
+
+(* the steps an item stands for: a request that is over at its start still makes a whole block (the rest does nothing) *)
+Definition item_ops (it : qitem) : list op :=
+  match it with
+  | QStart r e rq over _ =>
+    match gate e rq with
+    | GRun c => start_ops r rq c ++ (match over with Some _ => finish_ops r 0 | None => [] end)
+    | _ => []
+    end
+  | QFinish r k _ _ => finish_ops r k
+  | QOp o _ => [o]
+  end.
+
+Fixpoint run_q (np : nat) (s : prov) (items : list qitem) : bool :=
+  match items with
+  | [] => true
+  | it :: l =>
+    match steps code_variant s (item_ops it) with
+    | Ok (s', rs) =>
+      (match it with
+       | QStart r e rq over _ =>
+         match gate e rq with
+         | GReject => oqout_eqb over (Some QoRejected)
+         | GEmpty => oqout_eqb over (Some QoEmpty)
+         | GRun _ => oqout_eqb (start_out (firstn 3 rs)) over
+         end
+       | QFinish _ _ out _ => qout_eqb (finish_out rs) out
+       | QOp _ _ => true
+       end)
+      && esnap_ok np s' (match it with QStart _ _ _ _ sn | QFinish _ _ _ sn | QOp _ sn => sn end)
+      && run_q np s' l
+    | _ => false
+    end
+  end.
+
 Inductive case :=
 | KScript (max : nat) (idle busyto : Z) (np : nat) (ops : list op) (observed : list obs) (panicked : bool)
           (disc : bool)   (* the harness's verdict on the client discipline (no id requested again while in flight, unless cached and busy): it tags the input distribution *)
+| KQuery (max : nat) (idle busyto : Z) (np : nat) (items : list qitem)
 | KStress.     (* concurrent stress run: oracle only, nothing to compare *)
 
 Definition check (c : case) : bool :=
@@ -56,6 +124,8 @@ Definition check (c : case) : bool :=
   | KScript max idle busyto np ops observed panicked disc =>
       let '(l, p) := run_obs np (init max idle busyto) ops in
       all2 obs_eqb l observed && Bool.eqb p panicked && Bool.eqb (disciplined code_variant (init max idle busyto) ops) disc
+  | KQuery max idle busyto np items =>
+      run_q np (init max idle busyto) items && paired (flat_map item_ops items)
   | KStress => true
   end.
 
